@@ -192,6 +192,8 @@ def instrument(conn: base.Conn, world: base.World):
             raise
         finally:
             _CURRENT[0] = None
+            # is this connection's controller still paired? (what a session teardown would look at)
+            rec["self_gone"] = h.client_uuid is not None and h.client_uuid not in h.state.paired_clients
 
     h.dispatch = dispatch
     names = {n for paths in hap_handler.HAPServerHandler.HANDLERS.values() for n in paths.values()}
@@ -216,7 +218,8 @@ def instrument(conn: base.Conn, world: base.World):
                         "name": name,
                         "resp": {"status": r.status_code, "headers": [[str(k), str(v)] for k, v in r.headers],
                                  "body": hx(body), "task": r.task is not None, "shared_key": bool(r.shared_key),
-                                 "pairing_changed": bool(r.pairing_changed)},
+                                 "pairing_changed": bool(r.pairing_changed),
+                                 "pairing_removed": bool(getattr(r, "pairing_removed", False))},
                         "exn": exn, "verified_after": bool(h.is_encrypted), "uuid_after": h.client_uuid is not None,
                     }
 
@@ -333,9 +336,9 @@ def gen_request(rng, world: base.World, verified: bool) -> Tuple[bytes, Dict[str
     if kind in ("valid", "header", "framing", "version"):
         tb = base.valid_bodies(world, m, p)
         if p == "/pairings":
-            # remove the *other* controller: tearing down the session of a removed controller is C16's
-            # subject (a repair there adds a close step that this pump model does not contain)
-            tb = tb[:2] + [(p.encode(), httpc.pairings_remove(base.CANARY_USER_ID))]
+            # also remove the *other* controller (the base list removes the admin itself, which tears
+            # the session down after the response)
+            tb = tb + [(p.encode(), httpc.pairings_remove(base.CANARY_USER_ID))]
         target, body = rng.choice(tb)
         # what may legitimately change the accessory / pairing / srp state
         meta["effectful"] = (verified and m in ("PUT", "POST")) or p in ("/pair-setup", "/pair-verify")
@@ -427,6 +430,8 @@ def boundary_streams(world: base.World) -> List[Tuple[List[bytes], str]]:
         ([b"\x16\x03\x01\x02\x00\x01\x00\x01\xfc\x03\x03"], "TLS hello"),
         ([g(b"/" + b"a" * 70000)], "oversized request line"),
         ([g(b"/accessories", b"Expect: 100-continue\r\n")], "Expect: 100-continue"),
+        ([httpc.http_request(b"POST", b"/pairings", httpc.pairings_remove(base.CANARY_CTRL_ID)) + acc],
+         "remove own pairing then GET (pipelined)"),
     ]
 
 
@@ -661,7 +666,8 @@ def model_line(obs: Dict[str, Any], verified: bool, with_uuid: bool) -> Dict[str
             if k in cb:
                 c[k] = cb[k]
         cbs.append(c)
-    disp = [{"urlparse": d["urlparse"], "handler": d["handler"], "is_admin": d["is_admin"]} for d in t["disp"]]
+    disp = [{"urlparse": d["urlparse"], "handler": d["handler"], "is_admin": d["is_admin"],
+             "self_gone": bool(d.get("self_gone"))} for d in t["disp"]]
     return {"layer": "pump", "op": "transcript", "verified": verified, "has_uuid": bool(with_uuid) and verified,
             "h11": t["h11"], "disp": disp, "callbacks": cbs}
 
@@ -720,7 +726,8 @@ def cases(ctx: Ctx, n_random: int):
         for verified in (False, True):
             for chunks, label in boundary_streams(probe_world):
                 stream = b"".join(chunks)
-                meta = {"kinds": ["boundary"], "effectful": verified and b"PUT /characteristics" in stream, "label": label,
+                meta = {"kinds": ["boundary"], "label": label,
+                        "effectful": verified and (b"PUT /characteristics" in stream or b"POST /pairings" in stream),
                         "requests": []}
                 out.append(((True, "sync"), verified, True, chunks, meta))
         for i in range(n_random):
@@ -776,6 +783,8 @@ def run(ctx: Ctx, model: bool = True, n: Optional[int] = None):
             st.hit("outcome", "dispatch:" + (f"{hd['resp']['status']}" if hd and not hd["exn"] else ("handler-raised" if hd else ("urlparse-raised" if d["urlparse"] and "err" in d["urlparse"] else ("no-route" if d["urlparse"] else "undecodable")))))
         if any(c[0] == "send" and c[2] is None for c in t["h11"] if isinstance(c, list) and len(c) == 3):
             st.hit("outcome", "h11-refused-send")
+        if any(d.get("self_gone") and d.get("handler") and d["handler"]["resp"].get("pairing_removed") for d in t["disp"]):
+            st.hit("outcome", "session-teardown-of-this-connection")
         if any(cb["cb"] == "ready" for cb in t["callbacks"]):
             st.hit("outcome", "delayed-response")
         lines.append(model_line(obs, verified, with_uuid))
